@@ -89,7 +89,8 @@ def handleSpend (s : St) (ws : List String) : IO St := do
       let cl := if kind == "funding" then "commit-signed" else "spend-valid"
       s ← monitor s cl s!"ctx={ctxS} kind={kind} wt={kvS ws "wt"} seq={seq} lock={lock} engine={engine}"
   -- (X)
-  if spk == "p2tr" || s.ct.taproot then
+  if (spk == "p2tr" || s.ct.taproot) && kvS ws "ws" == "-" then
+    -- key-path spends (MuSig2 funding output, taproot anchors): real engine only
     return { s with modelSkipped := s.modelSkipped + 1 }
   let some ev := engineVerdict engine | return { s with modelSkipped := s.modelSkipped + 1 }
   let some wit := parseWitness (kvS ws "wit") | mismatch s s!"unparsed witness {kvS ws "wit"}"
@@ -101,6 +102,28 @@ def handleSpend (s : St) (ws : List String) : IO St := do
   let cltv := findCltv script0
   let ph := findPayHash script0
   let expiry := if k == .htlcTimeoutTx then lock else cltv
+  if spk == "p2tr" || s.ct.taproot then
+    let cx : Ctx := { version := ver, sequence := seq, lockTime := lock, tapscript := true }
+    let mv := run cx script0 wit && kvS ws "pk" == "1"
+    if mv != ev then
+      s ← mismatch s s!"verdict(taproot) ctx={ctxS} kind={kind} var={variant} model={mv} engine={engine}"
+    s := { s with modelChecked := s.modelChecked + 1 }
+    if variant == "pos" then
+      match c.tapScript k expiry ph with
+      | some sc =>
+        if script0 != sc then
+          s ← mismatch s s!"script(taproot) ctx={ctxS} kind={kind} impl={kvS ws "ws"} model={repr sc}"
+      | none => s ← mismatch s s!"taproot spend path ctx={ctxS} kind={kind}: model expects the key path"
+      let mw := c.tapWitness k (.pre 0)
+      if wit != mw then
+        s ← mismatch s s!"witness(taproot) ctx={ctxS} kind={kind} impl={kvS ws "wit"} model={repr mw}"
+      let mc := c.tapCtx k expiry
+      if seq != mc.sequence || ver != mc.version || lock != mc.lockTime then
+        s ← mismatch s s!"txshape ctx={ctxS} kind={kind} impl=ver{ver},seq{seq},lock{lock} model=ver{mc.version},seq{mc.sequence},lock{mc.lockTime}"
+      if c.tapValid k expiry ph (.pre 0) != ev then
+        s ← mismatch s s!"tapValid ctx={ctxS} kind={kind} model={c.tapValid k expiry ph (.pre 0)} engine={engine}"
+      s := { s with structChecked := s.structChecked + 1 }
+    return s
   let modelScript := c.script k expiry ph
   let modelScriptF := c.script k expiry ph true
   let script := if spk == "p2wkh" then modelScript else script0
@@ -183,7 +206,8 @@ def step (s : St) (line : String) : IO St := do
     let b (k : String) : Bool := kvNat? rest k == some 1
     let s := { s with caseId := id, ctype := kvS rest "type",
                        ct := { tweakless := b "tweakless", anchors := b "anchors", zeroFee := b "zerofee",
-                               lease := b "lease", taproot := b "taproot" },
+                               lease := b "lease", taproot := b "taproot",
+                               taprootFinal := kvS rest "type" == "taprootfinal" },
                        csv := #[(kvNat? rest "csvA").getD 5, (kvNat? rest "csvB").getD 4],
                        thaw := kvN rest "thaw", cases := s.cases + 1 }
     if s.samples < 4 && id != "tmpl" then
